@@ -88,6 +88,22 @@ fn json_str(s: &str) -> String {
     o
 }
 
+/// A logger that formats every record and throws the text away: the `Display` / `Debug` code behind the
+/// crates' log statements (and the slicing / indexing in their arguments) runs on every case, so a panic
+/// that only a logging application would see is a panic of the call under test here too.
+struct FormattingLogger;
+impl log::Log for FormattingLogger {
+    fn enabled(&self, _: &log::Metadata<'_>) -> bool {
+        true
+    }
+    fn log(&self, record: &log::Record<'_>) {
+        let text = format!("{}", record.args());
+        std::hint::black_box(text);
+    }
+    fn flush(&self) {}
+}
+static LOGGER: FormattingLogger = FormattingLogger;
+
 static LAST_PANIC: std::sync::Mutex<String> = std::sync::Mutex::new(String::new());
 
 fn main() {
@@ -96,6 +112,9 @@ fn main() {
             *g = info.to_string().replace('\n', " ");
         }
     }));
+    if log::set_logger(&LOGGER).is_ok() {
+        log::set_max_level(log::LevelFilter::Trace);
+    }
     let args: Vec<String> = std::env::args().collect();
     match args.get(1).map(|s| s.as_str()) {
         Some("impl") => {
